@@ -208,7 +208,7 @@ def norm_ns(n):
 def main():
     checks = {k: {'checked': 0, 'failures': []} for k in (
         'codec.roundtrip', 'codec.frames-are-the-spec-frames', 'codec.decodes-spec-frames', 'codec.encode-leaves-the-payload-untouched',
-        'codec.binary-only-in-events-and-acks', 'msgpack.roundtrip')}
+        'codec.binary-only-in-events-and-acks', 'msgpack.roundtrip', 'msgpack.refuses-malformed-frames-cheaply')}
 
     def fail(name, what, pkt):
         f = checks[name]['failures']
@@ -282,6 +282,29 @@ def main():
                 pass
             except Exception as e:   # noqa: BLE001
                 fail('codec.binary-only-in-events-and-acks', 'raised %r instead of ValueError' % (e,), (ptype, '/a', None, data))
+    # msgpack frames that are not exactly one well-formed packet are refused, without reserving memory for what they merely declare
+    if MP is not None:
+        import tracemalloc
+        import msgpack
+        good = msgpack.dumps({'type': 2, 'data': ['ev', 1], 'nsp': '/'})
+        hostile = [('trailing bytes', good + b'\x00'), ('two packets in one frame', good + good),
+                   ('array32 header declaring 2**27 elements', msgpack.dumps({'type': 2, 'nsp': '/'})[:-0 or None][:1] + b''),
+                   ('truncated', good[:-2])]
+        # a map {'type':2,'nsp':'/','data': <array32 of 2**27 declared, nothing sent>}
+        bomb = b'\x83' + msgpack.dumps('type') + msgpack.dumps(2) + msgpack.dumps('nsp') + msgpack.dumps('/') + msgpack.dumps('data') + b'\xdd\x08\x00\x00\x00'
+        hostile[2] = ('array32 header declaring 2**27 elements', bomb)
+        for what, frame in hostile:
+            checks['msgpack.refuses-malformed-frames-cheaply']['checked'] += 1
+            tracemalloc.start()
+            try:
+                q = MP.MsgPackPacket(encoded_packet=frame)
+                fail('msgpack.refuses-malformed-frames-cheaply', 'accepted a frame with %s: decoded data %r' % (what, q.data), repr(frame[:40]))
+            except Exception:      # noqa: BLE001
+                pass
+            peak = tracemalloc.get_traced_memory()[1]
+            tracemalloc.stop()
+            if peak > 16 * 1024 * 1024:
+                fail('msgpack.refuses-malformed-frames-cheaply', 'reserved %d MiB while looking at a %d-byte frame with %s' % (peak >> 20, len(frame), what), repr(frame[:40]))
     print(json.dumps({'packets': total,
                       'bound': 'types 0-6; namespaces %r; ids %r; payload trees of nesting depth <= %d (+1 for the event list), lists/dicts of <= 2 items, '
                                '%d leaf values incl. 3 byte strings and strings containing , - / " \\\\ newline and a non-ASCII letter' % (NAMESPACES, IDS, DEPTH, len(LEAVES)),
